@@ -383,6 +383,8 @@ fn alias_case(rng: &mut Rng, k: usize, release: bool) -> String {
     let l = rng.range(16, 40) as usize;
     let img = Image { prefix: rng.bytes(l), fill: rng.byte(), patches: vec![] };
     let alias = if k < 65536 { k as u16 } else { rng.edgy(16) as u16 };
+    // every fourth case asks for the alias that is already stored (over a stale checksum)
+    let alias = if rng.chance(1, 4) { u16::from_le_bytes([img.prefix[8], img.prefix[9]]) } else { alias };
     let m = img.mem(cs);
     let mut out: Vec<i64> = Vec::new();
     let r = std::panic::catch_unwind(std::panic::AssertUnwindSafe(|| block_on(verif::sii_query(m.clone(), 13, alias, &mut |v| out.push(v)))));
